@@ -98,6 +98,13 @@ ENVS: List[Tuple[str, Any]] = [
     ("one", {"A": "1"}),
     ("empty-value+space", {"A": "", "B": "x y"}),
 ]
+N_BASE_ENVS = len(ENVS)
+# env shapes that steer library behaviour (stderr handling of the stdio client), each next to an ordinary variable
+STEER_VALUES = ["ERROR", "error", "CRITICAL", "Critical", "DEBUG", "INFO", ""]
+for _var in ("LOG_LEVEL", "LOGGING_LEVEL"):
+    for _v in STEER_VALUES:
+        ENVS.append((f"{_var}={_v or '<empty>'}", {_var: _v, "A": "1"}))
+STEER_ENVS = list(range(N_BASE_ENVS, len(ENVS)))
 TIMEOUTS: List[Tuple[str, Any]] = [
     ("absent", ABSENT),
     ("int", 5),
@@ -134,7 +141,11 @@ D_SHAPES: List[List[int]] = [
 ]
 D_SHAPES_TRIPLES_QUICK = [0, 2, 3]
 
-MISSING_VARIANTS = ["nonexistent-file", "nonexistent-dir", "empty-path"]
+MISSING_VARIANTS = ["nonexistent-file", "nonexistent-dir", "empty-path", "removed-file"]
+N_MISSING_BASE = 3   # 'removed-file' (the path of an earlier call, file deleted since) belongs to the sequence part
+
+# file states of the call-sequence part: (name, phase cfg without 'entry')
+SEQ_STATES = ["valid-A", "valid-B", "invalid-json", "missing", "server-name-absent"]
 INVALID_JSON: List[Tuple[str, str]] = [
     ("empty-file", ""),
     ("truncated", '{"mcpServers": {"alpha": {"command": "x", "args": ['),
@@ -160,8 +171,10 @@ PARENT_ENV = {
     "A": "parent-A",
     "B": "parent-B",
     "C20_CANARY": "leak",
+    "LOG_LEVEL": "host-log-level",
+    "LOGGING_LEVEL": "host-logging-level",
 }
-CANARIES = ["A", "B", "C20_CANARY"]
+CANARIES = ["A", "B", "C20_CANARY", "LOG_LEVEL", "LOGGING_LEVEL"]
 
 CASE_LIMIT_S = 45.0      # hard watchdog per case (SIGALRM)
 INNER_LIMIT_S = 30.0     # cancel scope around the async entry points
@@ -437,8 +450,20 @@ def _install_wrapper(path: str) -> None:
 # ---------------------------------------------------------------------------
 # building the case on disk
 # ---------------------------------------------------------------------------
-def _build(cfg: Dict[str, Any], tmp: str) -> Tuple[str, List[Dict[str, Any]], Optional[str]]:
-    """Returns (config_path, server specs by index, decoy bin directory or None)."""
+def _write_config(path: str, text: str, pad_to: Optional[int]) -> None:
+    data = text.encode("utf-8")
+    if pad_to is not None:
+        if len(data) > pad_to:
+            raise core.HarnessError(f"config text of {len(data)} bytes does not fit the common size {pad_to}")
+        data += b" " * (pad_to - len(data))      # trailing blanks: still the same JSON / the same non-JSON
+    with open(path, "wb") as f:                  # rewritten in place when it exists (same inode)
+        f.write(data)
+
+
+def _build(cfg: Dict[str, Any], tmp: str, path_override: Optional[str] = None,
+           pad_to: Optional[int] = None) -> Tuple[str, List[Dict[str, Any]], Optional[str]]:
+    """Returns (config_path, server specs by index, decoy bin directory or None).  tmp is the directory the
+    server directories are created in; the config file goes to path_override when given."""
     shapes: List[List[int]] = cfg.get("servers") or []
     specs: List[Dict[str, Any]] = []
     servers: Dict[str, Any] = {}
@@ -459,7 +484,7 @@ def _build(cfg: Dict[str, Any], tmp: str) -> Tuple[str, List[Dict[str, Any]], Op
                 # a different executable of the same name that the configuration does not name
                 decoy_bin = os.path.join(tmp, "decoy", "bin")
                 _install_wrapper(os.path.join(decoy_bin, BARE_NAME))
-        servers[NAMES[i]] = sp["entry"]
+        servers[NAMES[i + int(cfg.get("name_offset") or 0)]] = sp["entry"]
         specs.append(sp)
         top_extra.update(EXTRAS[sp["shape"][3]][2])
     # servers recording into the same place must be indistinguishable launches
@@ -469,7 +494,7 @@ def _build(cfg: Dict[str, Any], tmp: str) -> Tuple[str, List[Dict[str, Any]], Op
     for group in by_sink.values():
         if len(group) > 1 and any(g["exp_argv"] != group[0]["exp_argv"] or _with_values(g["env"]) for g in group):
             raise core.HarnessError("grammar: two distinguishable servers share a record location")
-    path = os.path.join(tmp, "config.json")
+    path = path_override or os.path.join(tmp, "config.json")
     mal = cfg.get("malformed")
     doc: Dict[str, Any] = dict(top_extra)
     doc["mcpServers"] = servers
@@ -479,17 +504,18 @@ def _build(cfg: Dict[str, Any], tmp: str) -> Tuple[str, List[Dict[str, Any]], Op
             path = os.path.join(tmp, "no-such-config.json")
         elif v == "nonexistent-dir":
             path = os.path.join(tmp, "no-such-dir", "config.json")
+        elif v == "removed-file":
+            if os.path.lexists(path):
+                os.remove(path)
         else:
             path = ""
         return path, specs, decoy_bin
     if mal and mal["class"] == "invalid-json":
-        with open(path, "w", encoding="utf-8") as f:
-            f.write(INVALID_JSON[mal["variant"]][1])
+        _write_config(path, INVALID_JSON[mal["variant"]][1], pad_to)
         return path, specs, decoy_bin
     if mal and mal["class"] == "unknown-name" and UNKNOWN_FILES[mal["file"]] == "no-mcpServers-key":
         doc = {"servers": {}, "version": 1}
-    with open(path, "w", encoding="utf-8") as f:
-        json.dump(doc, f, ensure_ascii=False, indent=1)
+    _write_config(path, json.dumps(doc, ensure_ascii=False, indent=1), pad_to)
     return path, specs, decoy_bin
 
 
@@ -624,6 +650,13 @@ def _probe_loader(path: str, name: str) -> str:
 # one case
 # ---------------------------------------------------------------------------
 def case_text(cfg: Dict[str, Any]) -> str:
+    if "sequence" in cfg:
+        (s1, e1), (s2, e2) = cfg["sequence"]
+        how = "rewritten in place" if cfg.get("stamp") != "same-size-same-mtime" else \
+            "rewritten in place with identical size, mtime restored"
+        return (f"same path, same process: {e1} with the file in state {SEQ_STATES[s1]!r}, then file {how} to state "
+                f"{SEQ_STATES[s2]!r}, then {e2} || first: {case_text(seq_phase(s1, e1))} || second: "
+                f"{case_text(seq_phase(s2, e2))}")
     parts = [f"entry={cfg['entry']}"]
     if cfg.get("cmdkind") and cfg["entry"] == "run_command":
         parts.append(f"command={cfg['cmdkind']}")
@@ -640,7 +673,7 @@ def case_text(cfg: Dict[str, Any]) -> str:
         else:
             parts.append("one unknown name among valid ones")
     for i, s in enumerate(cfg.get("servers") or []):
-        parts.append(f"server[{NAMES[i]!r}]: {shape_text(s)}")
+        parts.append(f"server[{NAMES[i + int(cfg.get('name_offset') or 0)]!r}]: {shape_text(s)}")
     hp = cfg.get("host_path") or "plain"
     if hp != "plain":
         parts.append({"decoy-prepended": f"harness PATH starts with a directory holding a different {BARE_NAME!r}",
@@ -668,6 +701,8 @@ def run_one(ctl: explorer.Ctl, cfg: Dict[str, Any]) -> Dict[str, Any]:
     marker = os.fsencode(tmp + os.sep)
     pids: List[int] = []
     try:
+        if "sequence" in cfg:
+            return _run_sequence(cfg, tmp, pids)
         return _run_case(cfg, tmp, pids)
     finally:
         # whatever happened: no child of this case survives, nothing stays on disk
@@ -678,10 +713,82 @@ def run_one(ctl: explorer.Ctl, cfg: Dict[str, Any]) -> Dict[str, Any]:
         shutil.rmtree(tmp, ignore_errors=True)
 
 
-def _run_case(cfg: Dict[str, Any], tmp: str, pids: List[int]) -> Dict[str, Any]:
+def seq_phase(state: int, entry: str) -> Dict[str, Any]:
+    """The ordinary single-call case for one file state."""
+    name = SEQ_STATES[state]
+    extra: Dict[str, Any] = {"cmdkind": "plain"} if entry == "run_command" else (
+        {"verbose": False} if entry == "test_server" else {})
+    if name == "valid-A":
+        return {"entry": entry, "servers": [R_SHAPES[1]], "request": [0], **extra}
+    if name == "valid-B":
+        return {"entry": entry, "servers": [R_SHAPES[2]], "request": [0], **extra}
+    if name == "invalid-json":
+        return {"entry": entry, "servers": [R_SHAPES[1]], "request": [0],
+                "malformed": {"class": "invalid-json", "variant": 1}, **extra}
+    if name == "missing":
+        return {"entry": entry, "servers": [R_SHAPES[1]], "request": [0],
+                "malformed": {"class": "missing", "variant": MISSING_VARIANTS.index("removed-file")}, **extra}
+    if name == "server-name-absent":
+        # a valid file whose only server carries another name; the name of the earlier states is requested
+        return {"entry": entry, "servers": [R_SHAPES[1]], "name_offset": 1, "request": [NAMES[0]],
+                "malformed": {"class": "unknown-name", "file": UNKNOWN_FILES.index("one-server")}, **extra}
+    raise core.HarnessError(f"unknown sequence state {state}")
+
+
+SEQ_PAD = 2048
+
+
+def _run_sequence(cfg: Dict[str, Any], tmp: str, pids: List[int]) -> Dict[str, Any]:
+    """Two calls on the SAME path in the SAME process; the file changes in between.  Each call is judged
+    exactly like the single-call case of the state the file is in at that moment."""
+    (s1, e1), (s2, e2) = cfg["sequence"]
+    same_stamp = cfg.get("stamp") == "same-size-same-mtime"
+    path = os.path.join(tmp, "config.json")
+    pad = SEQ_PAD if same_stamp else None
+    phases = []
+    before = None
+    for k, (st, en) in enumerate(((s1, e1), (s2, e2))):
+        root = os.path.join(tmp, f"call{k + 1}")
+        os.mkdir(root)
+        obs = _run_case(seq_phase(st, en), tmp, pids, root=root, path=path, pad_to=pad,
+                        restore=before if (same_stamp and k == 1) else None)
+        phases.append(obs)
+        if k == 0:
+            try:
+                stt = os.stat(path)
+                before = (stt.st_atime_ns, stt.st_mtime_ns, stt.st_size)
+            except OSError:
+                before = None
+    viol = list(phases[0]["violations"])
+    for v in phases[1]["violations"]:
+        sig = dict(v["sig"])
+        sig["after"] = f"{e1}:{SEQ_STATES[s1]}"
+        if same_stamp:
+            sig["stamp"] = "same-size-same-mtime"
+        viol.append({"sig": sig, "msg": f"second call on the same path, after {e1} on the file in state "
+                                        f"{SEQ_STATES[s1]!r}" + (", rewritten with identical size and mtime" if same_stamp else "")
+                                        + f": {v['msg']}"})
+    counters: Dict[str, int] = {}
+    for ph in phases:
+        for kk, vv in (ph.get("counters") or {}).items():
+            counters[kk] = counters.get(kk, 0) + vv
+    for ph in phases:
+        ph.pop("violations", None)
+        ph.pop("counters", None)
+    return {"entry": f"{e1} then {e2}", "stamp": cfg.get("stamp") or "natural", "calls": phases,
+            "outcome": f"[{phases[0]['outcome']}] then [{phases[1]['outcome']}]",
+            "violations": viol, "counters": counters}
+
+
+def _run_case(cfg: Dict[str, Any], tmp: str, pids: List[int], root: Optional[str] = None,
+              path: Optional[str] = None, pad_to: Optional[int] = None, restore=None) -> Dict[str, Any]:
     entry = cfg["entry"]
     mal = cfg.get("malformed")
-    path, specs, decoy_bin = _build(cfg, tmp)
+    path, specs, decoy_bin = _build(cfg, root or tmp, path, pad_to)
+    if restore is not None and os.path.isfile(path):
+        if os.path.getsize(path) != restore[2]:
+            raise core.HarnessError("sequence: the rewritten file does not have the size of the earlier one")
+        os.utime(path, ns=(restore[0], restore[1]))
     host_path = cfg.get("host_path") or "plain"
     names = _req_names(cfg)
     rec: Dict[str, Any] = {}
@@ -796,7 +903,8 @@ def _run_case(cfg: Dict[str, Any], tmp: str, pids: List[int]) -> Dict[str, Any]:
         for sk, members in sinks.items():
             ls = launches[sk]
             req = [i for i in members if i in requested_idx] if judged_valid else []
-            who = [NAMES[i] for i in members]
+            off = int(cfg.get("name_offset") or 0)
+            who = [NAMES[i + off] for i in members]
             summary: Dict[str, Any] = {"servers": who, "requested": len(req), "launches": len(ls)}
             if not req:
                 if ls:
@@ -952,7 +1060,7 @@ def configs_for(tier: str) -> Dict[str, Tuple[int, List[Dict[str, Any]]]]:
 
     # (1) one server: the full product of the grammar x entry points
     g = []
-    for a, e, t, x in itertools.product(range(len(ARGS)), range(len(ENVS)), range(len(TIMEOUTS)), range(len(EXTRAS))):
+    for a, e, t, x in itertools.product(range(len(ARGS)), range(N_BASE_ENVS), range(len(TIMEOUTS)), range(len(EXTRAS))):
         shape = [a, e, t, x]
         g.append({"entry": "load_config", "servers": [shape], "request": [0]})
         for verbose in ([False, True] if thorough else [False]):
@@ -965,7 +1073,7 @@ def configs_for(tier: str) -> Dict[str, Tuple[int, List[Dict[str, Any]]]]:
     g = []
     for entry in ENTRIES:
         extra = {"cmdkind": "plain"} if entry == "run_command" else {}
-        for v in range(len(MISSING_VARIANTS)):
+        for v in range(N_MISSING_BASE):
             g.append({"entry": entry, "servers": [R_SHAPES[1]], "request": [0],
                       "malformed": {"class": "missing", "variant": v}, **extra})
         for v in range(len(INVALID_JSON)):
@@ -1050,6 +1158,28 @@ def configs_for(tier: str) -> Dict[str, Tuple[int, List[Dict[str, Any]]]]:
                 g.append({"entry": entry, "servers": [[a, e, 0, 0, 5, 0]], "request": [0], "host_path": "own-prepended",
                           **extra})
     parts["command-resolution"] = (1, g)
+
+    # (6) env shapes that steer the library itself (LOG_LEVEL / LOGGING_LEVEL decide how the child's stderr is set up)
+    g = []
+    for entry in ENTRIES:
+        extra = {"cmdkind": "plain"} if entry == "run_command" else ({"verbose": False} if entry == "test_server" else {})
+        for a in (range(len(ARGS)) if thorough else (0, 2, 5, 6)):   # >= 128 cases, so the pool (not the parent) runs them
+            for e in STEER_ENVS:
+                g.append({"entry": entry, "servers": [[a, e, 0, 0]], "request": [0], **extra})
+    parts["env-steering-variables"] = (1, g)
+
+    # (7) two calls on the same path in one process, the file changing in between: every ordered pair of file states
+    #     x every pair of entry points; file->file transitions also with identical size and restored mtime
+    g = []
+    file_states = [i for i, n in enumerate(SEQ_STATES) if n != "missing"]
+    for s1 in range(len(SEQ_STATES)):
+        for s2 in range(len(SEQ_STATES)):
+            for e1 in ENTRIES:
+                for e2 in ENTRIES:
+                    g.append({"sequence": [[s1, e1], [s2, e2]], "stamp": "natural"})
+                    if s1 in file_states and s2 in file_states:
+                        g.append({"sequence": [[s1, e1], [s2, e2]], "stamp": "same-size-same-mtime"})
+    parts["call-sequences-on-one-path"] = (1, g)
     return parts
 
 
@@ -1057,6 +1187,15 @@ def run(tier: str, only=None) -> core.Result:
     res = core.Result("C20", "exploration")
     parts = configs_for(tier)
     t_before = time.time()
+    # import the library once in the parent: the pool workers of every part are forked from here and would
+    # otherwise each pay the import again
+    import anyio  # noqa: F401
+    import chuk_mcp.__main__  # noqa: F401
+    import chuk_mcp.config  # noqa: F401
+    import chuk_mcp.mcp_client.host.environment  # noqa: F401
+    import chuk_mcp.mcp_client.host.server_manager  # noqa: F401
+    import chuk_mcp.protocol.messages  # noqa: F401
+    import chuk_mcp.transports.stdio  # noqa: F401
     for name, (children, cfgs) in parts.items():
         if only and name not in only:
             continue
@@ -1081,7 +1220,9 @@ def run(tier: str, only=None) -> core.Result:
                                             for p in res.parts.values())
     cov["grammar"] = {
         "args": [a for _, a in ARGS],
-        "env": ["absent" if e is ABSENT else e for _, e in ENVS],
+        "env": ["absent" if e is ABSENT else e for _, e in ENVS[:N_BASE_ENVS]],
+        "env_steering": [e for _, e in ENVS[N_BASE_ENVS:]],
+        "sequence_states": SEQ_STATES,
         "timeout": ["absent" if t is ABSENT else t for _, t in TIMEOUTS],
         "extra_keys": [n for n, _, _ in EXTRAS],
         "server_names_by_position": NAMES,
@@ -1118,6 +1259,12 @@ def run(tier: str, only=None) -> core.Result:
         "command name x {env PATH names only its directory, first, last} x {harness PATH without it, with a decoy of the same "
         "name prepended, appended}, by absolute path (control), and bare with env absent/{} while the harness PATH (= the "
         "default env's PATH) leads to it; x args x entry points; a launch of the decoy is a violation.  "
+        "(6) env = {LOG_LEVEL or LOGGING_LEVEL: one of ERROR, error, CRITICAL, Critical, DEBUG, INFO, '' ; A: '1'} x args x "
+        "entry points, judged like any configured env; (7) call sequences: in ONE process and on ONE path, first call with "
+        "the file in state s1, file rewritten in place / deleted to state s2, second call - for every ordered pair over "
+        "{valid A, valid B, invalid JSON, missing, valid but the server name absent} x every pair of entry points, "
+        "file-to-file transitions also with identical size and restored mtime; the second call is judged exactly like the "
+        "single-call case of s2.  "
         "A case is non-trivial if it ran the entry point to completion; distinct = distinct observation digests "
         "(the observation contains the case description, what each witness recorded and what the entry point printed, "
         "with temp paths and the interpreter path normalised)"
@@ -1151,6 +1298,9 @@ def run(tier: str, only=None) -> core.Result:
         "and not judged here",
         "run_command clears the terminal through os.system; fd 1/2 are pointed at /dev/null during each call, so the child's "
         "inherited stderr is /dev/null as well",
+        "call sequences have length 2, rewrite the file in place (same inode; ctime is not controlled) and run both calls in "
+        "the same worker process; longer histories, replacement by rename and changes made while a call is in flight are "
+        "not generated",
         "valid JSON that is not an object, entries without 'command', directories given as config path are outside the three "
         "malformed classes of the statement and not generated",
     ]
